@@ -5,12 +5,21 @@ TLC checks the faithful spec exhaustively (every distribution of logs over block
 counterexamples of the named deviations (the pre-fix two-cursor algorithm and four single-guard weakenings) are
 replayed on the real ExecutionClient / EventSyncer against a gated in-process execution node; a free-running seeded
 fault-injection run and a PackLogs run complete the picture.  Verdicts come from the monitor on the real stream only.
+
+Implementation -> specification: `logstream -mode record` lets the real StreamLogs run freely under a seeded random
+environment (not derived from TLC behaviours) and records the node's RPC boundary and the consumer; TLC reads the
+recorded executions twice with spec/LogStreamTrace.tla: as observations (LogStreamTrace_obs.cfg: the C13 invariants on
+what the consumer really received - a violated invariant is a violation of C13, the execution's slice of the trace is the
+replay) and as a conformance check (LogStreamTrace.cfg: every event explained by LogStream's actions with the logged
+arguments bound - a rejection is a divergence, never a verdict).
 """
 import concurrent.futures as cf
+import glob
 import hashlib
 import json
 import os
 import random
+import re
 import time
 
 import vlib
@@ -36,11 +45,13 @@ ATTACKS = [  # (cfg, description)
 def _tier(tier):
     if tier == "quick":
         return dict(mc=[("LogStream_quick.cfg", 110), ("LogStream_quick_kinds.cfg", 90)], cover="LogStream_cover.cfg",
-                    extra_edges=300, cover_cap=2500, sim=(150, 40, 24), stress=120, packlogs=2000, workers=12)
+                    extra_edges=300, cover_cap=2500, sim=(150, 40, 24), stress=120, packlogs=2000, workers=12,
+                    record=80, record_chunk=80, record_rounds=(3, 2), record_race=0, restart_cfg=None)
     return dict(mc=[("LogStream_thorough.cfg", 1500), ("LogStream_thorough_faults.cfg", 900), ("LogStream_quick.cfg", 600),
                     ("LogStream_quick_kinds.cfg", 600)],
                 cover="LogStream_cover_thorough.cfg", extra_edges=6000, cover_cap=None, sim=(3000, 45, 200), stress=3000,
-                packlogs=50000, workers=12)
+                packlogs=50000, workers=12, record=2000, record_chunk=400, record_rounds=(6, 4), record_race=300,
+                restart_cfg=("LogStream_restart.cfg", 600))
 
 
 def _sim_files(seed, nsample):
@@ -94,6 +105,239 @@ def _attack_trace(cfg):
     return beh, False
 
 
+
+# ----------------------------------------------------------------------------------------
+# implementation -> specification: recorded free-running executions, validated by TLC
+# ----------------------------------------------------------------------------------------
+
+TRACE_MODULE = "LogStreamTrace"
+TRACE_INVARIANTS = {
+    "GotIncreasing": "block numbers of the stream handed to the consumer do not strictly increase",
+    "GotNoRewind": "an entry for a block before the requested start was handed to the consumer (rewind)",
+    "GotBlockComplete": "an entry does not carry exactly the block's non-removed logs in order",
+    "GotNoGap": "a block with non-removed registry logs was passed over (gap)",
+    "GotFollow": "an entry beyond head - followDistance was handed to the consumer",
+    "GotCaughtUp": "at the quiescent point a block in [start, head - followDistance] with logs has not exactly one entry",
+}
+
+
+def _tlc_trace(cfg, lines, name, timeout=1800):
+    """One TLC pass over recorded events.  Returns (status, at, TLCResult): status "accepted" | "rejected" (at = index
+    of the first line the spec could not explain) | "violated" (at = index of the line whose state violates
+    r.violation).  -difftrace keeps the printed counterexample small (it is as long as the trace)."""
+    content = "\n".join(lines) + "\n"
+    r = vlib.tlc(TRACE_MODULE, cfg, name=name, workers=1, timeout=timeout, depth_first=True,
+                 files={"trace.ndjson": content}, extra=("-difftrace",), heap="6g")
+    if r.violation and r.violation_kind == "invariant":
+        return "violated", max(0, len(r.trace) - 2), r
+    post = ("ostcondition" in r.out and ("violated" in r.out or "is false" in r.out)) or \
+        ("TraceAccepted" in r.out and ("violated" in r.out or "is false" in r.out))
+    if r.error and not post:
+        raise vlib.MachineryError("TLC error during trace validation (%s): %s" % (cfg, r.error))
+    if r.rc == -9:
+        raise vlib.MachineryError("trace validation (%s) did not finish within %ds" % (cfg, timeout))
+    consumed = max(0, r.depth - 1)
+    if not post and not r.violation and consumed == len(lines):
+        return "accepted", consumed, r
+    if r.depth == 0:
+        raise vlib.MachineryError("trace validation (%s) produced no statistics:\n%s" % (cfg, r.out[-2000:]))
+    return "rejected", min(consumed, len(lines) - 1), r
+
+
+def _executions(lines):
+    """[(first, last+1)] of every execution (Reset .. the line before the next Reset)"""
+    starts = [i for i, ln in enumerate(lines) if '"event":"Reset"' in ln]
+    return [(a, (starts[k + 1] if k + 1 < len(starts) else len(lines))) for k, a in enumerate(starts)]
+
+
+def _exec_of(execs, idx):
+    for a, b in execs:
+        if a <= idx < b:
+            return a, b
+    return execs[-1]
+
+
+def _validate(lines, cfg, name, rounds, timeout=1800):
+    """Validate; on a finding take the offending execution out and go on with the rest (bounded), so that one
+    execution does not hide the others.  Returns (findings, generated, events validated)."""
+    findings, generated = [], 0
+    cur = list(lines)
+    for k in range(rounds):
+        if not cur:
+            break
+        status, at, r = _tlc_trace(cfg, cur, "%s-%d" % (name, k), timeout)
+        generated += r.generated
+        if status == "accepted":
+            break
+        a, b = _exec_of(_executions(cur), at)
+        findings.append({"status": status, "invariant": r.violation if status == "violated" else None,
+                         "exec": json.loads(cur[a]).get("x", "?"), "line_in_exec": at - a + 1, "event": cur[at][:300],
+                         "slice": cur[a:b]})
+        cur = cur[:a] + cur[b:]
+    else:
+        findings.append({"status": "unfinished", "invariant": None, "exec": "?", "line_in_exec": 0, "event": "", "slice": []})
+    return findings, generated, len(cur)
+
+
+def _corruptions(lines):
+    """Binding self-test inputs: (what, expected finding kind per cfg, corrupted prefix of the trace)."""
+    execs = _executions(lines)
+    out = {}
+    for a, b in execs:
+        evs = [json.loads(x) for x in lines[a:b]]
+        names = [e["event"] for e in evs]
+        dl = [i for i, n in enumerate(names) if n == "Deliver"]
+        if "deliver" not in out and len(dl) >= 2:
+            # a delivered block number is falsified (the second entry claims the block of the first)
+            e = dict(evs[dl[1]])
+            e["b"] = evs[dl[0]]["b"]
+            c = lines[:b]
+            c[a + dl[1]] = json.dumps(e, separators=(",", ":"))
+            out["deliver"] = ("delivered block number of line %d falsified" % (a + dl[1] + 1), a + dl[1], c)
+        if "drop" not in out and len(dl) >= 2 and names[-1] == "End" and evs[-1].get("complete"):
+            c = lines[:b]
+            del c[a + dl[-1]]
+            out["drop"] = ("Deliver event of line %d dropped" % (a + dl[-1] + 1), a + dl[-1], c)
+        if "range" not in out:
+            for i, e in enumerate(evs):
+                if names[i] in ("Cut", "Kill", "Poison"):
+                    break
+                if names[i] == "GetLogs" and e["res"] == "ok" and e["b"] > e["a"]:
+                    e = dict(e)
+                    e["b"] = e["b"] - 1
+                    c = lines[:b]
+                    c[a + i] = json.dumps(e, separators=(",", ":"))
+                    out["range"] = ("eth_getLogs range of line %d falsified" % (a + i + 1), a + i, c)
+                    break
+        if len(out) == 3:
+            break
+    return out
+
+
+def _selftest(lines, tag):
+    """The binding is real: a falsified delivered block number must be rejected by the conformance reading AND violate
+    an invariant of the observation reading; a falsified fetch range and a dropped event must be rejected."""
+    cs = _corruptions(lines)
+    res = {}
+    jobs = []
+    with cf.ThreadPoolExecutor(max_workers=4) as ex:
+        for what, (desc, at, c) in cs.items():
+            jobs.append((what, "bind", desc, at, ex.submit(_tlc_trace, "LogStreamTrace.cfg", c, "%s-self-%s" % (tag, what), 900)))
+            if what == "deliver":
+                jobs.append((what, "obs", desc, at, ex.submit(_tlc_trace, "LogStreamTrace_obs.cfg", c, "%s-selfobs-%s" % (tag, what), 900)))
+        for what, reading, desc, at, fut in jobs:
+            status, where, r = fut.result()
+            if reading == "bind":
+                if status != "rejected":
+                    raise vlib.MachineryError("binding self-test failed: %s, but LogStreamTrace %s the trace" % (desc, status))
+                res[what] = "%s: rejected at line %d" % (desc, where + 1)
+            else:
+                if status != "violated":
+                    raise vlib.MachineryError("binding self-test failed: %s, but no invariant of the observation reading fired" % desc)
+                res[what + "_obs"] = "%s: %s violated at line %d" % (desc, r.violation, where + 1)
+    for what in ("deliver", "range", "drop"):
+        res.setdefault(what, "skipped (no suitable event)")
+    return res
+
+
+def _race_reports(prefix):
+    """GORACE log files -> (reports with both stacks in the driver's own code, reports touching other code, sample)"""
+    own, other, sample = 0, 0, None
+    for fn in glob.glob(prefix + "*"):
+        txt = open(fn, errors="replace").read()
+        for rep in txt.split("WARNING: DATA RACE")[1:]:
+            frames = re.findall(r"^  (\S+)\(\)$", rep, re.M)
+            tops = [f for f in frames if not f.startswith("runtime.")]
+            foreign = [f for f in tops if not f.startswith("main.")]
+            if foreign:
+                other += 1
+                sample = sample or foreign[:4]
+            else:
+                own += 1
+        os.remove(fn)
+    return own, other, sample
+
+
+def _trace_direction(drv, wd, seed, runs, chunk, tag, verdict_items, kills=True, race=False, selftest=True, rounds=(3, 2)):
+    """Record `runs` free-running executions on the real client and validate them.  Appends (signature, description,
+    replay path) to verdict_items for every invariant of the observation reading violated on a real trace and for
+    every trip of the driver's own monitor.  Returns the coverage dict."""
+    tr = os.path.join(wd, "trace_%s.ndjson" % tag)
+    outr = os.path.join(wd, "record_result_%s.json" % tag)
+    args = ["-mode", "record", "-trace", tr, "-out", outr, "-seed", str(seed), "-runs", str(runs), "-workers", "12"]
+    env = None
+    racelog = os.path.join(wd, "race_%s" % tag)
+    if race:
+        args.append("-kills=false")
+        env = {"GORACE": "log_path=%s exitcode=0" % racelog}
+    t0 = time.time()
+    vlib.run_driver(drv, args, timeout=3000, env=env)
+    res = json.load(open(outr))
+    _machinery(res, "record")
+    lines = [x for x in open(tr).read().split("\n") if x.strip()]
+    execs = _executions(lines)
+    by_id = {json.loads(lines[a]).get("x"): (a, b) for a, b in execs}
+    cov = {"executions": res["behaviours"], "events": len(lines), "with_faults_and_logs": res["nontrivial"],
+           "counters": res["counters"], "record_wall_s": round(time.time() - t0, 1)}
+    if race:
+        own, other, sample = _race_reports(racelog)
+        if own:
+            raise vlib.MachineryError("the race detector reports %d data races inside the logstream driver" % own)
+        cov["race_detector"] = {"reports_outside_driver": other, "sample_frames": sample}
+    for v in res["violations"]:
+        a, b = by_id.get(v["behaviour"], (0, 0))
+        rp = vlib.save_replay(PROP, "trace-%s.ndjson" % v["behaviour"], "\n".join(lines[a:b]) + "\n") if b else tr
+        verdict_items.append((v["signature"], "%s [%s event %d, driver monitor]" % (v["description"], v["behaviour"], v["step"]), rp))
+
+    # chunks of whole executions, the two readings of every chunk in parallel
+    chunks, cur, n = [], [], 0
+    for a, b in execs:
+        cur += lines[a:b]
+        n += 1
+        if n == chunk:
+            chunks.append(cur)
+            cur, n = [], 0
+    if cur:
+        chunks.append(cur)
+    t1 = time.time()
+    generated, validated, divergences, violations = 0, 0, [], []
+    with cf.ThreadPoolExecutor(max_workers=4) as ex:
+        futs = []
+        for k, c in enumerate(chunks):
+            futs.append(("obs", ex.submit(_validate, c, "LogStreamTrace_obs.cfg", "%s-obs%d" % (tag, k), rounds[0])))
+            futs.append(("bind", ex.submit(_validate, c, "LogStreamTrace.cfg", "%s-bind%d" % (tag, k), rounds[1])))
+        f_self = ex.submit(_selftest, chunks[0], tag) if (selftest and chunks) else None
+        for reading, fut in futs:
+            findings, gen, nval = fut.result()
+            generated += gen
+            if reading == "bind":
+                validated += nval
+            for f in findings:
+                if f["status"] == "unfinished":
+                    cov.setdefault("notes", []).append("%s reading: more findings than rounds, the rest of a chunk was not read" % reading)
+                elif f["status"] == "violated" and reading == "obs":
+                    violations.append(f)
+                else:
+                    divergences.append(dict(f, reading=reading))
+        cov["binding_selftest"] = f_self.result() if f_self else "not run"
+    for f in violations:
+        rp = vlib.save_replay(PROP, "trace-%s-%s.ndjson" % (f["invariant"], f["exec"]), "\n".join(f["slice"]) + "\n")
+        verdict_items.append(("trace-" + f["invariant"],
+                              "%s: invariant %s of LogStreamTrace violated by the recorded execution %s at its event %d: %s" %
+                              (TRACE_INVARIANTS.get(f["invariant"], "?"), f["invariant"], f["exec"], f["line_in_exec"], f["event"]), rp))
+    for d in divergences[:5]:
+        log("[C13] recorded execution %s not explained by the spec (%s reading, %s) at its event %d: %s" %
+            (d["exec"], d["reading"], d["invariant"] or d["status"], d["line_in_exec"], d["event"]))
+    cov.update({"events_explained": validated, "tlc_states": generated, "invariant_violations": len(violations),
+                "rejected_executions": len(divergences), "validate_wall_s": round(time.time() - t1, 1),
+                "rejected_samples": [{k: d[k] for k in ("exec", "reading", "status", "invariant", "line_in_exec", "event")}
+                                     for d in divergences[:5]]})
+    log("[C13] trace direction (%s): %d free-running executions / %d events recorded from the real client in %.1fs; "
+        "observation reading: %d invariant violations; conformance reading: %d events explained, %d executions rejected; %.1fs TLC" %
+        (tag, res["behaviours"], len(lines), cov["record_wall_s"], len(violations), validated, len(divergences), cov["validate_wall_s"]))
+    return cov
+
+
 def run(tier, seed):
     t0 = time.time()
     T = _tier(tier)
@@ -104,7 +348,12 @@ def run(tier, seed):
     drv = vlib.go_build("logstream")
 
     # ---- all TLC work in parallel: exhaustive configs, cover graph, simulation, attack traces
-    pool = cf.ThreadPoolExecutor(max_workers=5)
+    pool = cf.ThreadPoolExecutor(max_workers=7)
+    trace_items = []
+    f_trace = pool.submit(_trace_direction, drv, wd, seed, T["record"], T["record_chunk"], "rec", trace_items, True, False, True,
+                          T["record_rounds"])
+    f_restart = pool.submit(vlib.tlc, MODULE, T["restart_cfg"][0], None, 4, T["restart_cfg"][1] + 300, T["restart_cfg"][1]) \
+        if T["restart_cfg"] else None
     f_mc = [(cfg, pool.submit(vlib.tlc, MODULE, cfg, None, 6, budget + 300, budget)) for cfg, budget in T["mc"]]
     f_cover = pool.submit(vlib.tlc_dump_graph, MODULE, T["cover"], None, 1500, None, 4)
     num, depth, nsample = T["sim"]
@@ -194,7 +443,27 @@ def run(tier, seed):
         transitions += r.generated
         exhaustive = exhaustive and r.finished
         log("[C13] TLC %s: %d distinct / %d generated, finished=%s, %.1fs" % (cfg, r.distinct, r.generated, r.finished, r.wall))
+    if f_restart:
+        r = f_restart.result()
+        if not vlib.expect_tlc_ok(r, T["restart_cfg"][0]):
+            raise vlib.MachineryError("LogStream with Restart / SubErrorPending violates %s (model error, not a verdict)" % r.violation)
+        cov["configs"].append({"cfg": T["restart_cfg"][0], "distinct": r.distinct, "generated": r.generated, "depth": r.depth,
+                               "exhaustive": r.finished, "wall_s": round(r.wall, 1)})
+        states += r.distinct
+        transitions += r.generated
+        exhaustive = exhaustive and r.finished
+
+    # ---- 4. implementation -> specification: the recorded free-running executions
+    cov["trace"] = f_trace.result()
+    if T["record_race"]:
+        cov["trace_race"] = _trace_direction(vlib.go_build("logstream", race=True), wd, seed + 101, T["record_race"],
+                                             T["record_chunk"], "race", trace_items, kills=False, race=True, selftest=False,
+                                             rounds=T["record_rounds"])
     pool.shutdown()
+    for sig, desc, rp in trace_items:
+        verdict.violation(sig, desc, rp)
+    cov["divergences"] += cov["trace"]["rejected_executions"] + cov["trace"]["counters"].get("divergences", 0)
+    transitions += cov["trace"]["tlc_states"]
 
     rc = verdict.report()
     if cov["divergences"] and rc == 0:
@@ -204,14 +473,18 @@ def run(tier, seed):
         "states": states, "transitions": transitions,
         "traces_validated_against_impl": max(0, res["behaviours"] - len(attack_behs) - res["counters"].get("aborted_schedules", 0)
                                              - res["counters"].get("abandoned_client_hang_after_cut", 0)
-                                             - max(diverged_behs, min(res["counters"].get("divergences", 0), res["behaviours"]))),
+                                             - max(diverged_behs, min(res["counters"].get("divergences", 0), res["behaviours"])))
+        + max(0, cov["trace"]["executions"] - cov["trace"]["rejected_executions"]
+              - cov["trace"]["counters"].get("abandoned_client_hang_after_cut", 0)),
         "samples": res["samples"][:2] + ress["samples"][:1],
-        "evaluations": res["steps"] + ress["steps"] + resk["behaviours"],
+        "evaluations": res["steps"] + ress["steps"] + resk["behaviours"] + cov["trace"]["events"],
         "distinct_nontrivial": res["nontrivial"] + ress["nontrivial"],
         "rule": "replayed behaviours = BFS-tree leaves of the dumped state graph + seeded non-tree edges + TLC simulations of a "
                 "larger instance with seeded block-kind distributions + counterexamples of the named deviations; stress = "
                 "free-running seeded fault injection; non-trivial = at least one injected failure and at least one entry "
-                "with logs handed to the real handler (behaviour ids are distinct by construction)",
+                "with logs handed to the real handler (behaviour ids are distinct by construction); trace = free-running "
+                "executions under a seeded random environment recorded at the node's RPC boundary and at the consumer, read by "
+                "TLC as observations (C13 invariants) and as a conformance check against LogStream (LogStreamTrace)",
         "exhaustive": bool(exhaustive),
         "detail": cov,
     }
@@ -223,6 +496,9 @@ def run(tier, seed):
         "the historical sync restarts, as cli/operator/node.go does after a Fatal, from the block after the last entry "
         "its handler processed",
         "go-ethereum's rpc client/server and Go channel semantics are trusted",
+        "recorded executions: events are ordered by a sequence number taken under the one mutex that also guards the fake "
+        "node's connection table, live subscription and head; executions in which go-ethereum's rpc client stays blocked "
+        "after a cut are recorded up to that point and given up without a completeness verdict",
     ], len(verdict.violations))
     return rc
 
@@ -243,6 +519,16 @@ def replay(path):
     wd = os.path.join(vlib.WORK, PROP)
     os.makedirs(wd, exist_ok=True)
     outp = os.path.join(wd, "replay_single.json")
+    if os.path.exists(path) and '"event"' in open(path).readline():
+        # the slice of a recorded execution: the observation reading of LogStreamTrace decides again
+        lines = [x for x in open(path).read().split("\n") if x.strip()]
+        status, at, r = _tlc_trace("LogStreamTrace_obs.cfg", lines, "replay-obs", 900)
+        if status == "violated":
+            verdict.violation("trace-" + r.violation, "%s: invariant %s violated at event %d of the recorded execution: %s" %
+                              (TRACE_INVARIANTS.get(r.violation, "?"), r.violation, at + 1, lines[at][:300]), path)
+        status, at, r = _tlc_trace("LogStreamTrace.cfg", lines, "replay-bind", 900)
+        log("conformance reading of the recorded execution: %s%s" % (status, "" if status == "accepted" else " at event %d" % (at + 1)))
+        return verdict.report()
     if path.startswith("stress:") or path.startswith("packlogs:"):
         mode, seed, runs = path.split(":")
         vlib.run_driver(drv, ["-mode", mode, "-out", outp, "-seed", seed.split("=")[1], "-runs", runs.split("=")[1]])
